@@ -8,6 +8,9 @@ import DelaunayModel.Model.Proto
 import DelaunayModel.Model.Pred
 import Driver.CxHandlers
 import Driver.GeoHandlers
+import Driver.OrdHandlers
+import Driver.TorusHandlers
+import Driver.MeasHandlers
 open DM
 
 def optIntTok : Option Int → String
@@ -106,9 +109,18 @@ def dispatch (c : Case) : Res :=
   | "pred" => runPred c
   | "cx" => runCx c
   | "dup" => runDup c
+  | "note" => (match c.ob "panic" with
+      | some m => { status := "ORACLE", detail := s!"panic while loading a corrupted document ({c.arg "corruption"}): {m}" }
+      | none => { status := "ok", stats := [s!"note.rejected.{c.arg "corruption"}"] })
   | "loc" => runLoc c
   | "hull" => runHull c
   | "qry" => runQry c
+  | "hil" => runHil c
+  | "meas" => runMeas c
+  | "wrap" => runWrap c
+  | "torus" => runTorus c
+  | "ord" => runOrd c
+  | "ded" => runDed c
   | k => { status := "DISAGREE", detail := s!"unknown case kind {k}" }
 
 partial def readAll (h : IO.FS.Stream) (acc : Array String) : IO (Array String) := do
